@@ -96,7 +96,7 @@ def run(ck: Check) -> None:
         elif r < 0.2:
             gpg = rng.choice([None, "yes", 2, 1, 0, 1.0, [], proto.Opaque(0)])
             tag = "gpg-kind"
-        cases.append(Case("vdeleg", [role, u, t, gpg], tag=tag, group=i, enc=rng.choice(["utf-8", "utf-8", "ascii", "utf-8+Werror"])))
+        cases.append(Case("vdeleg", [role, u, t, gpg], tag=tag, group=i, enc=rng.choice(["utf-8", "utf-8", "ascii", "utf-8+Werror", "broken:none"])))
     res = ck.run_cases(cases, "corr:verify_delegation/outcome-class")
     for r in res:
         role, u, t, gpg = r.case.args
